@@ -28,10 +28,15 @@ structure Variant where
   /-- finding C10-6: `SetFileReader` keeps `Seek` visible so a retry can rewind the reader, and
   `Do` refuses a retryable request whose file reader cannot be rewound. -/
   fileRewind : Bool
+  /-- finding C10-8: the loop itself never retries a request whose body cannot be replayed — also
+  when the retry option came into being, or got its count, while the call was in flight (only
+  the loop with a mutable retry option, `Req.RetryDyn`, can tell the difference: with a fixed
+  policy `Do`'s up-front refusal covers every such call). -/
+  loopRefuse : Bool
 deriving DecidableEq, Repr
 
-def Variant.repaired : Variant := ⟨true, true, true, true, true⟩
-def Variant.asFound : Variant := ⟨false, false, false, false, false⟩
+def Variant.repaired : Variant := ⟨true, true, true, true, true, true⟩
+def Variant.asFound : Variant := ⟨false, false, false, false, false, false⟩
 /-- Shorthand used by the lemma and theorem files. -/
 abbrev R : Variant := Variant.repaired
 
